@@ -98,7 +98,8 @@ def gen_deps(pid, targets):
             for name in m.group(2).split():
                 deps.add((m.group(1) + "." if m.group(1) else "") + name)
         req[mod] = deps
-    todo = [t[:-3].replace("/", ".") for t in targets] + ["Properties." + pid, "Pins." + pid]
+    # Run.v is the common case runner and imports every model: it is not what makes a PROPERTY depend on a table
+    todo = [t[:-3].replace("/", ".") for t in targets if t != "Run.vo"] + ["Properties." + pid, "Pins." + pid]
     seen = set()
     while todo:
         x = todo.pop()
